@@ -60,6 +60,11 @@ type impl interface {
 	close()
 }
 
+// timeScale stretches the model's clock: model time t is the real time t * timeScale (replays run one at a time under
+// clockMu).  1 = the model's small integers as they are; 600e9 = ten minutes apart in nanoseconds, so replicas whose
+// clocks have not advanced yet see updates "from the future" (skewed clocks are part of the quantifier).
+var timeScale int64 = 1
+
 func setClock(ts ...int64) {
 	i := 0
 	rc.Now = func() int64 {
@@ -68,8 +73,19 @@ func setClock(ts ...int64) {
 			t = ts[i]
 		}
 		i++
-		return t
+		return t * timeScale
 	}
+}
+
+// us converts a real time back to model time; a time that is not a model time at all reads as -1.
+func us(x int64) int64 {
+	if timeScale == 1 {
+		return x
+	}
+	if x%timeScale != 0 {
+		return -1
+	}
+	return x / timeScale
 }
 
 // ---------------------------------------------------------------------------------------------
@@ -192,7 +208,7 @@ func (m *mapImpl) deliver(i int, r string, relay bool) (map[string]ad, bool) {
 	m.reps[r].Merge(p)
 	delta := map[string]ad{}
 	for k, v := range p.VerifItems() {
-		delta[k] = ad{v.AddTime(), v.DelTime()}
+		delta[k] = ad{us(v.AddTime()), us(v.DelTime())}
 	}
 	isNil := p.Count() == 0
 	if relay && !isNil {
@@ -209,7 +225,7 @@ func (m *mapImpl) observe(keys []string) obs {
 		o.V[r] = map[string]val{}
 		for _, k := range keys {
 			v := mp.Get(k)
-			o.V[r][k] = val{v.AddTime(), v.DelTime(), mp.Has(k)}
+			o.V[r][k] = val{us(v.AddTime()), us(v.DelTime()), mp.Has(k)}
 		}
 		o.All[r], o.Live[r] = []string{}, []string{}
 		mp.Range(nil, true, func(k string, v rc.Value) bool { o.All[r] = append(o.All[r], k); return true })
@@ -350,11 +366,11 @@ func (s *stateImpl) deliver(i int, r string, relay bool) (map[string]ad, bool) {
 				delta[k] = ad{-1, -1} // the events a key stands for were treated differently: never what the model says
 			} else if !v.IsZero() {
 				x := delta[k]
-				if v.AddTime() > x.A {
-					x.A = v.AddTime()
+				if a := us(v.AddTime()); a > x.A || a < 0 {
+					x.A = a
 				}
-				if v.DelTime() > x.D {
-					x.D = v.DelTime()
+				if d := us(v.DelTime()); d > x.D || d < 0 {
+					x.D = d
 				}
 				delta[k] = x
 			}
@@ -383,7 +399,7 @@ func (s *stateImpl) observe(keys []string) obs {
 				o.V[r][k] = val{-1, -1, false}
 				continue
 			}
-			o.V[r][k] = val{v.AddTime(), v.DelTime(), has}
+			o.V[r][k] = val{us(v.AddTime()), us(v.DelTime()), has}
 			want := map[string]bool{}
 			for _, ev := range s.eventsOf(k) {
 				want[ev.Key()] = true
@@ -452,6 +468,12 @@ func replay(kind string, keys []string, walk []json.RawMessage, label string) *c
 	defer clockMu.Unlock()
 	saved := rc.Now
 	defer func() { rc.Now = saved }()
+	timeScale = 1
+	if strings.HasSuffix(kind, "@skewed") {
+		kind = strings.TrimSuffix(kind, "@skewed")
+		timeScale = 600e9
+	}
+	defer func() { timeScale = 1 }()
 	im := newImpl(kind)
 	defer im.close()
 	tr := &core.Trace{Label: label}
@@ -617,6 +639,11 @@ func Explore(c *core.Ctx, what string, light bool) int64 {
 		}
 		if i%60 == 7 {
 			kinds = append(append([]string{}, kinds...), "state-durable-big")
+		}
+		// skewed clocks: the same behaviour with model times ten minutes apart (updates reach replicas whose own clock
+		// is far behind the update's time)
+		if i%4 == 1 {
+			kinds = append(append([]string{}, kinds...), []string{"state-volatile@skewed", "state-durable@skewed", "volatile-hop@skewed", "durable@skewed"}[(i/4)%4])
 		}
 		for _, kind := range kinds {
 			wg.Add(1)
